@@ -244,6 +244,15 @@ func valRange(
 		return object.NewValueErr("cannot use 0 for range step")
 	}
 
+	// NOTE: steps larger than the sequence select at most one element
+	// (clamping prevents `i += step` from overflowing)
+	if step > int64(size)+1 {
+		step = int64(size) + 1
+	}
+	if step < -int64(size)-1 {
+		step = -int64(size) - 1
+	}
+
 	start, stop := fixRange(r, int64(size), step)
 
 	hasNext := func(i int64, stop int64) bool {
@@ -266,15 +275,22 @@ func canBeUsedForRange(o object.PanObject) bool {
 }
 
 func fixRange(r *object.PanRange, length int64, step int64) (int64, int64) {
+	// NOTE: bounds are clamped to the ends of the sequence in the direction of step
+	// ([0, length] for increasing ranges, [-1, length-1] for decreasing ones)
+	lower, upper := int64(0), length
+	if step < 0 {
+		lower, upper = -1, length-1
+	}
 	fix := func(i int64) int64 {
-		if i < -length {
-			return 0
-		}
-		if i > length {
-			return length
-		}
 		if i < 0 {
-			return i + length
+			i += length
+			if i < lower {
+				return lower
+			}
+			return i
+		}
+		if i > upper {
+			return upper
 		}
 		return i
 	}
